@@ -172,7 +172,10 @@ def run_case(ctx, index):
         ctx.count('layout_unsorted_seen')
     if st.startswith('csc'):
         ctx.count('layout_csc_seen')
-    date = datetime.datetime(2022, 2, 3, 4, 5, 6, 789)
+    date = r.choice([datetime.datetime(2022, 2, 3, 4, 5, 6, 789),
+                     datetime.datetime(2022, 2, 3, 4, 5, 6),       # no usec
+                     datetime.datetime(1999, 12, 31),              # midnight
+                     datetime.datetime(2030, 1, 1, 23, 59, 59, 999999)])
     desc = {'table': spec.describe(), 'recipe': recipe, 'layout': st,
             'generated_by': gby}
     exp = snap.snap_spec(spec)
